@@ -25,6 +25,11 @@
 (*   tls   TRUE iff the connection object is an ssl.SSLSocket (base.py check_tls)           *)
 (*   hdrs  the lines that follow the first line on the stream, as a sequence of KINDS:      *)
 (*           "AW" Accept header listing text/vnd.wap.wml     "AO" Accept header without it  *)
+(*           "AG" Accept header listing WML FIRST (or only) with no blank between the colon  *)
+(*                and the value ("Accept:text/vnd.wap.wml,...", valid HTTP: RFC 1945 4.2)     *)
+(*           (the spellings of AW - WML first / only / middle / last in the list, blank or   *)
+(*            not after the colon, comma / comma-blank / blank separators, parameters,       *)
+(*            header-name case, CRLF or LF - are chosen by gamma, per occurrence)            *)
 (*           "XP" x-wap-profile header                       "XU" x-up-devcap-max-pdu header *)
 (*           "NC" a non-blank line without a colon           "BL" a blank line              *)
 (*         (end of sequence = end of stream)                                                *)
@@ -34,6 +39,7 @@ TX == INSTANCE Text          \* shared string helpers, namespaced (TraceBase's S
 ASSUME TX!Split("a\tb", "\t") = <<"a", "b">>      \* (kept bound to Text: the helpers below are single-pass re-statements)
 
 CONSTANTS WapTop,                 \* [protocols.wap.WAPProtocol] waptop, read from conf/pygopherd.conf (binding B1)
+          GluedAcceptUnrecognised,\* TRUE = the code's regular expression needs a blank or comma BEFORE the WML type (as coded)
           EmptyPlusFieldRaises    \* FALSE = repaired code (current /repo); TRUE = the snapshot's IndexError is modelled
 
 HI == "#"
@@ -97,18 +103,26 @@ Secure(p) == p \in SecureProtocols
 (* ------------------------------------------------------------------------------------ *)
 (* Headers following an HTTP request line                                                *)
 (* ------------------------------------------------------------------------------------ *)
-HdrKinds == {"AW", "AO", "XP", "XU", "NC", "BL"}
+HdrKinds == {"AW", "AG", "AO", "XP", "XU", "NC", "BL"}
 NoHdr == [accept |-> "none", xwap |-> FALSE, xup |-> FALSE]      \* the httpheaders dict, abstracted
-PutHdr(d, k) == CASE k = "AW" -> [d EXCEPT !.accept = "wml"]     \* dict assignment: the last Accept wins
+\* what a header line MEANS (documentation level): AG lists WML just as AW does
+PutHdr(d, k) == CASE k \in {"AW", "AG"} -> [d EXCEPT !.accept = "wml"]   \* dict assignment: the last Accept wins
                   [] k = "AO" -> [d EXCEPT !.accept = "other"]
                   [] k = "XP" -> [d EXCEPT !.xwap = TRUE]
                   [] k = "XU" -> [d EXCEPT !.xup = TRUE]
                   [] OTHER    -> d                                \* "NC": no colon, ignored
+\* what the code makes of it (wap.py:45 re.search("[, ]text/vnd.wap.wml", value), value = everything after the
+\* colon, unstripped).  NAMED DEVIATION GluedAcceptUnrecognised: without a blank after the colon a WML type at the
+\* start of the value has nothing in front of it, so the Accept header counts as one that does not list WML.
+PutHdrCoded(d, k) == IF k = "AG" /\ GluedAcceptUnrecognised THEN [d EXCEPT !.accept = "other"] ELSE PutHdr(d, k)
 \* what the client sent as its header block: the lines up to the first blank line / end of stream
 RECURSIVE HeaderBlock(_, _, _)
 HeaderBlock(hdrs, i, d) == IF i > Len(hdrs) \/ hdrs[i] = "BL" THEN d ELSE HeaderBlock(hdrs, i + 1, PutHdr(d, hdrs[i]))
+RECURSIVE HeaderBlockCoded(_, _, _)
+HeaderBlockCoded(hdrs, i, d) == IF i > Len(hdrs) \/ hdrs[i] = "BL" THEN d ELSE HeaderBlockCoded(hdrs, i + 1, PutHdrCoded(d, hdrs[i]))
 \* "PyGopherd can autodetect WAP from some phones" (conf/pygopherd.conf [protocols.wap.WAPProtocol]); the
-\* recognised browsers are those of wap.py:36-50: Accept lists WML and a WAP profile / UP.Browser header is present.
+\* recognised browsers are those of wap.py:36-55: Accept lists the WML type (anywhere in the list, however the header
+\* is spaced) and a WAP profile / UP.Browser header is present.
 WapBrowser(d) == d.accept = "wml" /\ (d.xwap \/ d.xup)
 
 (* ------------------------------------------------------------------------------------ *)
@@ -165,6 +179,11 @@ Shape(p, x) ==
       [] p \in {"GopherPlusProtocol", "SecureGopherPlusProtocol", "URLGopherPlus"} -> ShapeGopherPlus(x.line)
       [] p \in {"GopherProtocol", "SecureGopherProtocol", "EnhancedGopherProtocol"} -> ShapeGopher(x.line)
 Matches(p, x) == Shape(p, x) /\ (Secure(p) <=> x.tls)
+\* the same with the header block read as the code reads it (differs from Matches only under GluedAcceptUnrecognised;
+\* used to keep the model-side weakening for that recorded deviation exact)
+MatchesCoded(p, x) == IF p = "WAPProtocol"
+                      THEN ShapeHTTP(x.line) /\ ~x.tls /\ (BelowPrefix(HttpPath(x.line), WapTop) \/ WapBrowser(HeaderBlockCoded(x.hdrs, 1, NoHdr)))
+                      ELSE Matches(p, x)
 \* "the line is claimed by the first protocol in the configured order whose documented request shape it matches"
 FirstMatch(list, x) ==
     LET ms == {i \in 1..Len(list) : Matches(list[i], x)}
@@ -187,7 +206,7 @@ RECURSIVE SlurpFrom(_, _, _)
 \* http.py:31-41: read lines until end of stream or a blank line (which is consumed)
 SlurpFrom(hdrs, i, d) == IF i > Len(hdrs) THEN [hdr |-> d, pos |-> Len(hdrs)]
                          ELSE IF hdrs[i] = "BL" THEN [hdr |-> d, pos |-> i]
-                         ELSE SlurpFrom(hdrs, i + 1, PutHdr(d, hdrs[i]))
+                         ELSE SlurpFrom(hdrs, i + 1, PutHdrCoded(d, hdrs[i]))
 HeaderSlurp(hdrs, conn) ==
     IF conn.cached THEN conn                                       \* "Already slurped."
     ELSE LET s == SlurpFrom(hdrs, conn.pos + 1, NoHdr) IN [pos |-> s.pos, cached |-> TRUE, hdr |-> s.hdr]
@@ -257,6 +276,7 @@ Detect(list, px) == DetectFrom(list, 1, px, FreshConn)
 (* ------------------------------------------------------------------------------------ *)
 IsProtocol(r) == r \in Protocols
 MatchTable(S, x) == [p \in S |-> Matches(p, x)]
+MatchTableCoded(S, x) == [p \in S |-> MatchesCoded(p, x)]
 RECURSIVE FirstTrue(_, _, _)
 FirstTrue(list, i, m) == IF i > Len(list) THEN "None" ELSE IF m[list[i]] THEN list[i] ELSE FirstTrue(list, i + 1, m)
 \* every protocol's test accepts exactly its documented shape on connections of its own kind, and never crashes
